@@ -668,6 +668,59 @@ fn tcp_mapping_run() -> Result<u64, String> {
                 n += 1;
             }
         }
+        // a candidate that neither succeeds nor fails (a loopback listener whose accept queue is full: further SYNs
+        // are dropped): the overall deadline ends the operation — also when that candidate is the only one, and
+        // whatever the per-attempt timeout is
+        if let Some((_l, _fillers, hole)) = black_hole().await {
+            for addrs in [vec![hole], vec![hole, hole], vec![closed[0], hole]] {
+                for conc in [None, Some(1)] {
+                    for attempt_timeout in [None, Some(Duration::from_secs(4))] {
+                        let mut cfg = TcpTransportConfig::default();
+                        cfg.happy_eyeballs_concurrency = conc;
+                        cfg.happy_eyeballs_timeout = Some(Duration::from_millis(300));
+                        cfg.connect_timeout = attempt_timeout;
+                        let transport: TcpTransport = TcpTransport::builder().with_config(cfg).with_gai_resolver().build();
+                        let t0 = std::time::Instant::now();
+                        let r = tokio::time::timeout(Duration::from_millis(2500), transport.connect_to_addrs(addrs.clone())).await;
+                        let el = t0.elapsed();
+                        match r {
+                            Ok(Err(_)) if el >= Duration::from_millis(280) => {}
+                            other => {
+                                return Err(format!(
+                                    "connect_to_addrs({} candidate(s), the last one never completes; overall deadline 300ms, per-attempt timeout {attempt_timeout:?}, concurrency {conc:?}) = {} after {el:?}: the operation must fail at the overall deadline",
+                                    addrs.len(),
+                                    match other { Ok(Ok(_)) => "Ok".to_string(), Ok(Err(e)) => format!("Err({e})"), Err(_) => "still pending after 2.5s".to_string() }
+                                ));
+                            }
+                        }
+                        n += 1;
+                    }
+                }
+            }
+        }
         Ok(n)
     })
+}
+
+/// A loopback listener whose accept queue is full, so that further connection attempts hang (Linux drops the SYN).
+/// `None` if this platform does not behave that way.
+async fn black_hole() -> Option<(tokio::net::TcpListener, Vec<tokio::net::TcpStream>, std::net::SocketAddr)> {
+    let socket = tokio::net::TcpSocket::new_v4().ok()?;
+    socket.bind((std::net::Ipv4Addr::LOCALHOST, 0).into()).ok()?;
+    let listener = socket.listen(1).ok()?;
+    let addr = listener.local_addr().ok()?;
+    let mut fillers = Vec::new();
+    for _ in 0..8 {
+        match tokio::time::timeout(Duration::from_millis(150), tokio::net::TcpStream::connect(addr)).await {
+            Ok(Ok(s)) => fillers.push(s),
+            Ok(Err(_)) => return None,
+            Err(_) => break,
+        }
+    }
+    for _ in 0..2 {
+        if tokio::time::timeout(Duration::from_millis(250), tokio::net::TcpStream::connect(addr)).await.is_ok() {
+            return None;
+        }
+    }
+    Some((listener, fillers, addr))
 }
